@@ -399,6 +399,14 @@ def main(argv):
     disagreements = []   # (index description, sequence lines)
     can_run = ok_cargo and ok_drv and os.path.exists(os.path.join(LEAN, ".lake", "build", "bin", "driver"))
 
+    def safe_pair(*a):
+        """a crashing harness or driver is a broken tie, not a crash of the check"""
+        try:
+            return run_pair(*a)
+        except Exception as e:  # noqa: BLE001
+            broken.append("differential run could not complete: " + str(e)[-300:].replace("\n", " "))
+            return []
+
     def consume(recs, label):
         dis, vio = analyse(recs, events)
         for k in dis[:20]:
@@ -423,10 +431,10 @@ def main(argv):
                     recs = replay_ops(prop, os.path.join(cdir, fn), f"{prop}_corpus")
                     consume(recs, "corpus/" + fn)
         if tier == "quick":
-            consume(run_pair(prop, seed, cfg["quick"], "q"), f"seed {seed}")
+            consume(safe_pair(prop, seed, cfg["quick"], "q"), f"seed {seed}")
         else:
             for r in range(cfg.get("runs_thorough", 4)):
-                consume(run_pair(prop, seed * 1000 + r, cfg["thorough"] // cfg.get("runs_thorough", 4), f"t{r}"),
+                consume(safe_pair(prop, seed * 1000 + r, cfg["thorough"] // cfg.get("runs_thorough", 4), f"t{r}"),
                         f"seed {seed * 1000 + r}")
 
     # directed search when a proof or the correspondence broke and no failing input is known yet
@@ -437,7 +445,9 @@ def main(argv):
         r = 0
         while time.time() - ts < budget and not violations:
             r += 1
-            recs = run_pair(prop, seed * 7919 + r, max(cfg["quick"], 2000) * 3, "search")
+            recs = safe_pair(prop, seed * 7919 + r, max(cfg["quick"], 2000) * 3, "search")
+            if not recs:
+                break
             searched += len(recs)
             _d, _v = consume(recs, f"search seed {seed * 7919 + r}")
 
